@@ -87,7 +87,7 @@ func splitAtHeight(calls []call, h int64) int {
 
 func TestC13_Restart(t *testing.T) {
 	rec := recorder("C13")
-	rec.AddRule("(a) apphist history H; the real PersistToDisk is called after the Commit of a generated height s; a second application is loaded with LoadShutterAppFromFile, must report height s from Info, and replays the calls after s; oracle: responses of every replayed call byte-equal (Log/Info excluded) and final state equal (nil and empty containers identified) to the uninterrupted run; non-trivial = s < last height and the state at s holds votes or DKG instances; (b) crash during save: a helper process saves state X over an existing file holding state Y under RLIMIT_FSIZE=L for byte lengths L of the encoding and exits without clean-up; afterwards the file must load and equal Y (L < size) or X (L >= size)")
+	rec.AddRule("(a) apphist history H (one chain in six initialised in dev mode); the real PersistToDisk is called after the Commit of a generated height s; a second application is loaded with LoadShutterAppFromFile, must report height s from Info, and replays the calls after s; oracle: responses of every replayed call byte-equal (Log/Info excluded) and final state equal (nil and empty containers identified) to the uninterrupted run; non-trivial = s < last height and the state at s holds votes or DKG instances; (b) crash during save: a helper process saves state X over an existing file holding state Y under RLIMIT_FSIZE=L for byte lengths L of the encoding and exits without clean-up; afterwards the file must load and equal Y (L < size) or X (L >= size)")
 	dir := t.TempDir()
 	old := app.PersistMinDuration
 	app.PersistMinDuration = 1000 * time.Hour
@@ -110,6 +110,10 @@ func TestC13_Restart(t *testing.T) {
 		path := filepath.Join(dir, fmt.Sprintf("app-%d-%d.gob", os.Getpid(), cnt))
 		a := newApp(g)
 		a.Gobpath = path
+		// `chain init --dev` writes DevMode into the initial state file (validator updates are computed but
+		// not handed to Tendermint): a restart has to continue such a chain just the same
+		devMode := rapid.IntRange(0, 5).Draw(rt, "devMode") == 0
+		a.DevMode = devMode
 		viaCommit := rapid.Bool().Draw(rt, "saveViaCommit")
 		if viaCommit {
 			// the way a running node saves: Commit decides by PersistMinDuration
@@ -147,6 +151,9 @@ func TestC13_Restart(t *testing.T) {
 		}
 		os.Remove(path)
 		var labels []string
+		if devMode {
+			labels = append(labels, "dev-mode-chain")
+		}
 		if votes {
 			labels = append(labels, "votes-or-dkg-at-save")
 		}
